@@ -120,6 +120,15 @@ theorem C16_round_trip_reordered (env : FEnv) (t : DTy) (hn : NoMap t) (d : SDat
   obtain ⟨v, hs, hd⟩ := de_ser env t d h
   exact ⟨v, hs, fun w hp => de_perm env t hn v w d hp hd⟩
 
+/-- The side condition on map keys in `HasTy` is what Rust maps guarantee: keys that are pairwise
+    distinct data of one key type are spelled differently by the key serializer (`serKey_inj`:
+    `to_string` of integers, one-character strings, variant names are injective), so only "no key is
+    spelled like the private number token" remains. -/
+theorem C16_distinct_keys_suffice (k : KTy) (l : List (SData × SData))
+    (hk : ∀ e ∈ l, HasKey k e.1) (hd : (l.map (·.1)).Pairwise (· ≠ ·))
+    (hnt : ∀ e ∈ l, serKey e.1 ≠ .ok numberToken) : KeysOk l :=
+  keysOk_of_nodup k l hk hd hnt
+
 /-- Non-finite floats are outside `HasTy`: they serialize to `null`, which no float type reads. -/
 theorem C16_non_finite (env : FEnv) :
     ser (.float none) = .ok .null ∧ de env .f64 .null = .error .invalidType ∧
